@@ -763,7 +763,12 @@ func (c *Conn) finish(r *Ctx, stream uint32, err error) {
 		atomic.AddInt32(&c.openStreams, -1)
 	}
 
-	c.deletePending(stream)
+	// A response that is complete before the request body has gone out leaves
+	// the stream open on the server's side, counting against its limit: the
+	// rest is not coming, so say so.
+	if c.deletePending(stream) && err == nil {
+		c.cancelStream(stream, StreamCanceled)
+	}
 
 	r.markFinished()
 	r.resolve(err)
@@ -1168,25 +1173,33 @@ func (c *Conn) signalWindow() {
 	}
 }
 
-func (c *Conn) deletePending(id uint32) {
+// deletePending forgets a body that is still waiting to go out and reports
+// whether there was one.
+func (c *Conn) deletePending(id uint32) bool {
 	c.sendLck.Lock()
 	pb := c.pending[id]
 	delete(c.pending, id)
 	c.sendLck.Unlock()
 
-	if pb == nil || pb.stream == nil {
-		return
+	if pb == nil {
+		return false
+	}
+
+	if pb.stream == nil {
+		return true
 	}
 
 	// Taking the Ctx is what makes this safe: a request that has already been
 	// handed back to its caller is theirs to close, and releasing it does.
 	if !pb.ctx.acquireFor(c, id) {
-		return
+		return true
 	}
 
 	defer pb.ctx.release()
 
 	c.closeBodyStream(pb)
+
+	return true
 }
 
 // pendingIDs snapshots the streams with a body still to send.
